@@ -264,6 +264,14 @@ M = [
  dict(name="limb_shl_overflow_check_only", prop="C05", file="src/limb/shl.rs",
       old="        assert!(\n            shift < Self::BITS,\n            \"`shift` within the bit size of the integer\"\n        );\n        Limb(self.0 << shift)", new="        Limb(self.0 << shift)",
       expect="c05.docpanic|limb::shl::<impl limb::Limb>::shl"),
+ # --- c14.reminv (seeds C14a / C14b) and c10.iterbound (seeds C10a / C10c)
+ dict(name="floor_uint_remainder_inverted_on_sign", prop="C14", file="src/int/div_uint.rs",
+      old="        // Invert the remainder when self is negative and there is a non-zero remainder.\n        let remainder = Uint::select(&remainder, &rhs.wrapping_sub(&remainder), modify);\n\n        // Negate if applicable\n        let quotient = Self(quotient).wrapping_neg_if(lhs_sgn);\n\n        (quotient, remainder)\n    }\n\n    /// Variable time equivalent of [Self::div_floor_uint`].",
+      new="        // Invert the remainder when self is negative and there is a non-zero remainder.\n        let remainder = Uint::select(&remainder, &rhs.wrapping_sub(&remainder), lhs_sgn);\n\n        // Negate if applicable\n        let quotient = Self(quotient).wrapping_neg_if(lhs_sgn);\n\n        (quotient, remainder)\n    }\n\n    /// Variable time equivalent of [Self::div_floor_uint`].",
+      expect="c14.reminv|int::div_uint::<impl int::Int<_>>::div_rem_floor_uint_vartime"),
+ dict(name="divsteps_bound_from_modulus_only", prop="C10", file="src/modular/safegcd.rs",
+      old="    let m = iterations(f_0.bits(), g.bits());", new="    let m = iterations(f_0.bits(), f_0.bits());",
+      expect="c10.iterbound|modular::safegcd::divsteps"),
 ]
 
 def main():
